@@ -2049,6 +2049,68 @@ def correspond(ctx, component, pairs):
         ctx.count(f"corr-diff:{component}", bad)
 
 
+# ------------------------------------------------------------------------------------------------
+# history / object-identity probes (harness/histories.py): the LRRP / MBXML document API, described once
+def ENTRY_POINTS():
+    import types
+
+    import histories as H
+
+    mb, LRRP = mods()
+
+    def fake(rng):
+        return types.SimpleNamespace(rng=rng, count=lambda *a, **k: None, thorough=lambda: False, budget=lambda q, t: q, boost=1)
+
+    def api(rng):
+        for _ in range(20):
+            did, is_req, cdt, calls = parse_api_line(gen_api_line(fake(rng), rng.choice(("plain", "plain", "wire"))))
+            if calls:
+                return did, is_req, cdt, calls
+        return did, is_req, cdt, calls
+
+    def token_args(rng):
+        want_attrs = rng.random() < 0.8  # lookups with a non-empty attribute dict (the caller's own dict object) most of the time
+        for _ in range(40):
+            did, is_req, cdt, calls = api(rng)
+            with_attrs = [c for c in calls if c[2]]
+            if with_attrs or not want_attrs:
+                break
+        key, value, ad = rng.choice(with_attrs or calls or [(0x22, None, {})])
+        return (key, value, dict(ad), is_req)
+
+    def get_token(key, value, attrs, is_req):
+        return LRRP.get_token(name=key, value=value, attributes=attrs, is_request=is_req)
+
+    def doc_args(rng):
+        did, is_req, cdt, calls = api(rng)
+        doc = LRRP(document_id=[m for m in mb.MBXMLDocumentIdentifier if m.value[0] == did][0])
+        for key, value, ad in calls:
+            try:
+                doc.parts.append(LRRP.get_token(name=key, value=value, attributes=dict(ad), is_request=is_req))
+            except Exception:  # noqa
+                pass
+        if cdt is not None:
+            doc.constants_table = cdt
+            doc.is_constant_table_default = False
+        return (doc,)
+
+    def wire_args(rng):
+        x, _ = gen_buffer(fake(rng))
+        return (bytes(x),)
+
+    def docs_view(ds):
+        return [doc_str(mb, d) for d in ds] if isinstance(ds, (list, tuple)) else H.canon(ds)
+
+    def tok_view(t):
+        return part_str(t)
+
+    return [
+        H.EP("lrrp.get_token", get_token, token_args, canon=tok_view, kind="build", draws=3),
+        H.EP("mbxml.as_bytes", mb.MBXML.as_bytes, doc_args, kind="serialise", draws=2),
+        H.EP("mbxml.from_bytes", mb.MBXML.from_bytes, wire_args, canon=docs_view, kind="parse", draws=2),
+    ]
+
+
 def run(ctx):
     HANGS[0] = 0
     del HELD[:], PARSED[:]
@@ -2283,6 +2345,9 @@ def _run(ctx):
         run_items(ctx, mb, LRRP, items if main else items[::3], refs if main else refs[::3], cfg)
     ctx.count("ambient:log-records-formatted-by-the-capturing-handler", LOG_RECORDS[0])
     children_collect(ctx, children)
+    import histories
+
+    histories.run(ctx, ENTRY_POINTS)
     # the documents parsed at the beginning, after everything else the run did in this process
     verify_held(ctx, mb)
     ctx.exhaustive = False
@@ -2298,6 +2363,10 @@ def replay(obj):
     f = obj.get("failure") or {}
     inp = f.get("input", {})
     print(json.dumps(obj.get("type")), f.get("what"))
+    if str(f.get("kind", "")).startswith("history:"):
+        import histories
+
+        return histories.replay(inp, ENTRY_POINTS)
     for d in (obj.get("correspondence_differences") or [])[:5]:
         print("correspondence difference:", d)
     still = 1
